@@ -245,8 +245,78 @@ def gen(max_rows=10):
     )
 
 
+# ---- exact integers: a column of whole numbers is the same whole numbers in every output ---------------------------
+
+INT_DTYPES = {"int64": (-(2**63), 2**63 - 1), "int32": (-(2**31), 2**31 - 1), "uint32": (0, 2**32 - 1), "int16": (-(2**15), 2**15 - 1), "uint8": (0, 255)}
+
+
+def check_exact(case) -> Outcome:
+    """`0 + i1 + i2 ...` over integer columns of one dtype (values up to the dtype's range, i.e. beyond 2**53 for int64):
+    every output of every entry point / materializer holds, under the column's name, exactly the integers of the data
+    (oracle: the data itself, compared as Python integers, no tolerance)."""
+    import pandas as pd
+
+    out = Outcome()
+    lo, hi = INT_DTYPES[case["dtype"]]
+    cols = {c: [min(max(v, lo), hi) for v in vals] for c, vals in case["cols"].items()}
+    df = pd.DataFrame({c: np.array(v, dtype=case["dtype"]) for c, v in cols.items()})
+    use = [c for c in cols if c in case["use"]] or list(cols)[:1]
+    s = ("0 + " if case["zero"] else "-1 + ") + " + ".join(use)
+    opts = dict(ensure_full_rank=case["efr"], na_action="drop")
+    big = any(abs(v) > 2**53 for c in use for v in cols[c])
+    out.nontrivial = big
+    out.label("exact:" + case["dtype"], "beyond-2**53" if big else "within-2**53")
+    base_spec = None
+    for variant in case["variants"]:
+        output, entry, mat = variant
+        feat = dict(output=output, entry=entry, mat=mat, exact=True)
+        out.label("mat:" + mat, "entry:" + entry, "out:" + output)
+        if entry == "reuse-spec" and base_spec is None:
+            from ..libio import model_matrix
+
+            base_spec = model_matrix(s, df, output="pandas", **opts).model_spec
+        mm = _run_variant(s, df, variant, opts, base_spec)
+        names = list(mm.model_spec.column_names)
+        if names != use:
+            out.fail("column-names-agree", f"{s!r} variant {variant}: {names} vs {use}", **feat)
+            continue
+        m = getattr(mm, "__wrapped__", mm)
+        if output == "pandas":
+            got = {c: [v.item() if hasattr(v, "item") else v for v in m[c].tolist()] for c in names}
+        else:
+            arr = m.toarray() if hasattr(m, "toarray") else np.asarray(m)
+            if arr.shape != (len(df), len(names)):
+                out.fail("shape-agrees", f"{s!r} variant {variant}: shape {arr.shape}", **feat)
+                continue
+            got = {c: [v.item() for v in arr[:, j]] for j, c in enumerate(names)}
+        bad = [c for c in names if len(got[c]) != len(cols[c]) or any(g != w for g, w in zip(got[c], cols[c]))]
+        if bad:
+            out.fail("integers-exact", f"{s!r} ({case['dtype']}) variant {variant}: columns {bad} are not the data's integers: {[got[c] for c in bad]} vs {[cols[c] for c in bad]}", **feat)
+    return out
+
+
+def gen_exact():
+    edge = st.sampled_from([2**53 + 1, -(2**53) - 1, 2**60 + 3, 2**62 + 1, 2**63 - 1, -(2**63), 2**31 - 1, 2**32 - 1, 0, 1, -1, 255, 2**15])
+    val = st.one_of(edge, st.integers(-(2**63), 2**63 - 1), st.integers(-1000, 1000))
+    variant = st.tuples(st.sampled_from(OUTPUTS), st.sampled_from(ENTRIES), st.sampled_from(MATS))
+    return st.integers(1, 6).flatmap(
+        lambda n: st.builds(
+            lambda cols, use, dt, zero, efr, vs: {"cols": cols, "use": use, "dtype": dt, "zero": zero, "efr": efr, "variants": [list(v) for v in vs]},
+            st.fixed_dictionaries({"i1": st.lists(val, min_size=n, max_size=n), "i2": st.lists(val, min_size=n, max_size=n), "i3": st.lists(val, min_size=n, max_size=n)}),
+            st.lists(st.sampled_from(["i1", "i2", "i3"]), min_size=1, max_size=3, unique=True),
+            st.sampled_from(["int64", "int64", "int64", "int32", "uint32", "int16", "uint8"]),
+            st.booleans(),
+            st.booleans(),
+            st.lists(variant, min_size=3, max_size=6, unique=True),
+        )
+    )
+
+
 BUDGET_S = {"quick": 110, "thorough": 1500}
 
 
 def campaigns(tier, shard=0, nshards=1):
-    return [Campaign("variants", gen(10 if tier == "quick" else 20), check_case, 900 if tier == "quick" else 8000)]
+    return [
+        Campaign("variants", gen(10 if tier == "quick" else 20), check_case, 900 if tier == "quick" else 8000),
+        Campaign("exact-integers", gen_exact(), check_exact, 400 if tier == "quick" else 5000),
+    ]
